@@ -199,6 +199,15 @@ func genC10(g *Gen) {
 			}
 			g.do(st)
 			g.continuation(len(g.x.frames) - 1)
+			// and the receiver itself is as usable as before: what a failed call leaves behind (buffers,
+			// caches, pools) must not reach the next, valid call - on this frame or another
+			if s2 := schemaOf(g.frame(f)); !s2.err && len(s2.names) > 0 {
+				g.validAfterInvalid(f, s2)
+				other := g.do(g.stdNew(3, "BAS", 8))
+				if so := schemaOf(g.frame(other)); !so.err {
+					g.validAfterInvalid(other, so)
+				}
+			}
 			g.end()
 		}
 	}
@@ -256,5 +265,23 @@ func genC10(g *Gen) {
 			}
 		}
 		g.end()
+	}
+}
+
+func (g *Gen) validAfterInvalid(f int, s schema) {
+	c := g.oneOf(s.names)
+	g.do(Step{Op: "Sort", Recv: f, Orders: []Order{{Col: toBS(c), Rev: g.rng.Intn(2) == 0}}})
+	cl := g.simpleLeaf(s)
+	g.do(Step{Op: "Filter", Recv: f, Clause: &cl})
+	switch g.rng.Intn(4) {
+	case 0:
+		g.do(Step{Op: "Distinct", Recv: f, Cols: bsList([]string{c})})
+	case 1:
+		g.do(Step{Op: "GroupBy", Recv: f, Cols: bsList([]string{c}), Null: true})
+		g.do(Step{Op: "Aggregate", Recv: len(g.x.groupers) - 1, Aggs: []Agg{{Fn: FnRef{K: "builtin", Sym: "count"}, Col: toBS(c)}}})
+	case 2:
+		g.do(Step{Op: "Apply", Recv: f, Instrs: g.randomInstrs(s, 2, false)})
+	default:
+		g.do(Step{Op: "Select", Recv: f, Cols: bsList(g.subset(s.names, 2))})
 	}
 }
